@@ -14,10 +14,10 @@ pub struct Axis<S> {
 
 fn inside(t: &mut Tape) -> (i64, i64) {
     match t.below(10) {
-        0 => (1, 1024),
-        1 => (1023, 1024),
-        2 => (1, 2),
-        3 => (1, 4096),
+        6 => (1, 1024),
+        7 => (1023, 1024),
+        8 => (1, 2),
+        9 => (1, 4096),
         _ => {
             let d = t.pick(&[2i64, 3, 4, 5, 8, 16]);
             (1 + t.below((d - 1) as usize) as i64, d)
@@ -26,17 +26,17 @@ fn inside(t: &mut Tape) -> (i64, i64) {
 }
 fn outside(t: &mut Tape) -> (i64, i64) {
     match t.below(10) {
-        0 => (-1, 1024),
-        1 => (1025, 1024),
-        2 => (-1, 2048),
-        3 => (4097, 4096),
+        6 => (-1, 1024),
+        7 => (1025, 1024),
+        8 => (-1, 2048),
+        9 => (4097, 4096),
         _ => {
             let d = t.pick(&[1i64, 1, 2, 3, 4]);
             let n = 1 + t.below(12) as i64;
             if t.bool() {
                 (-n, d)
             } else {
-                (d + n, d)
+                (d + n, d) // 1 + n/d
             }
         }
     }
